@@ -291,7 +291,7 @@ def vstr(e) -> str:
     return out
 
 
-def assigned_values(repo: Repo, ci, fn, target_path: str, stop=frozenset()):
+def assigned_values(repo: Repo, ci, fn, target_path: str, stop=frozenset(), kc=None):
     """normalised texts of the values assigned to `target_path` in fn, with temporaries replaced by their definitions (def-use expansion on the
     structural normal form); [] if never assigned"""
     from ..flow import Expander
@@ -301,7 +301,8 @@ def assigned_values(repo: Repo, ci, fn, target_path: str, stop=frozenset()):
     out = []
     for n in ex.cfg.nodes:
         if n.kind == "stmt" and isinstance(n.ast, ast.Assign) and any(path_of(t) == target_path for t in n.ast.targets):
-            out.append(norm(ex.expand(n.ast.value, n, stop=stop)))
+            e_ = ex.expand(n.ast.value, n, stop=stop)
+            out.append(norm(kc.visit(clone_(e_)) if kc is not None else e_))
     return out
 
 
@@ -556,3 +557,11 @@ def method_effects(repo: Repo, ci, fn, valuation=None, level=1, kc=None, view=No
                "calls": [tx(c) for c in env["<calls>"].elts] if "<calls>" in env else [], "why": res if isinstance(res, str) else None}
         out.append(rec)
     return out
+
+
+def case_effects(repo: Repo, ci, fn, var: str, value, extra=None, level=1, kc=None):
+    """method_effects on the paths a literal value of the option variable `var` selects (`var == value`; OTHER = none of the literals it is compared with)"""
+    v = canon_fn(repo, ci, fn, level)
+    val = case_valuation(v, var, value)
+    val.update(extra or {})
+    return method_effects(repo, ci, fn, valuation=val, kc=kc, view=v)
